@@ -206,6 +206,125 @@ def audit_meta(ck, m, ctx):
         ck.violation("flattened metadata carries a size that differs from the reported shape", rep)
 
 
+def gen_mover_program(rng):
+    """a program of data-movement ops valid for the running shape (10% of the programs end with an inapplicable op)"""
+    shape = [rng.choice([1, 2, 3, 4]) for _ in range(rng.randint(1, 3))]
+    start = list(shape)
+    ops = []
+    contiguous = True  # torch.view depends on strides, which the model does not have: it is only drawn on contiguous tensors
+    for _ in range(rng.randint(1, 5)):
+        n = 1
+        for d in shape:
+            n *= d
+        k = rng.choice(["reshape", "view", "permute", "transpose", "slice0", "select0", "unsqueeze0", "expand"])
+        if k == "view" and not contiguous:
+            k = "reshape"
+        if k in ("permute", "transpose", "expand"):
+            contiguous = False
+        if k == "reshape":
+            contiguous = True
+        if k in ("reshape", "view"):
+            divs = [d for d in range(1, n + 1) if n % d == 0]
+            a = rng.choice(divs)
+            b = rng.choice([d for d in divs if (n // a) % d == 0])
+            new = [x for x in (a, b, n // a // b)] if rng.random() < 0.5 else [a, n // a]
+            ops.append({"op": k, "shape": new}); shape = new
+        elif k == "permute" and len(shape) >= 2:
+            perm = list(range(len(shape))); rng.shuffle(perm)
+            ops.append({"op": k, "perm": perm}); shape = [shape[i] for i in perm]
+        elif k == "transpose" and len(shape) >= 2:
+            a, b = rng.randrange(len(shape)), rng.randrange(len(shape))
+            ops.append({"op": k, "a": a, "b": b}); shape[a], shape[b] = shape[b], shape[a]
+        elif k == "slice0" and shape:
+            a = rng.randint(0, shape[0]); b = rng.randint(a, shape[0])
+            if a == b:
+                continue
+            ops.append({"op": k, "start": a, "stop": b}); shape = [b - a] + shape[1:]
+        elif k == "select0" and len(shape) >= 2:
+            i = rng.randrange(-shape[0], shape[0])
+            ops.append({"op": k, "i": i}); shape = shape[1:]
+        elif k == "unsqueeze0" and len(shape) <= 3:
+            ops.append({"op": k}); shape = [1] + shape
+        elif k == "expand" and 1 in shape:
+            new = [rng.choice([2, 3]) if d == 1 and rng.random() < 0.7 else d for d in shape]
+            ops.append({"op": k, "shape": new}); shape = new
+    if rng.random() < 0.1:
+        n = 1
+        for d in shape:
+            n *= d
+        ops.append(rng.choice([{"op": "reshape", "shape": [n + 1]}, {"op": "select0", "i": (shape[0] if shape else 0) + 1}, {"op": "expand", "shape": [d + 1 if d > 1 else d for d in shape] + [2]}]))
+    return {"shape": start, "ops": ops or [{"op": "unsqueeze0"}]}
+
+
+def coq_mover(op, rank_hint=None):
+    zl = lambda xs: "[" + "; ".join(f"({x})" for x in xs) + "]"  # noqa: E731
+    k = op["op"]
+    if k in ("reshape", "view"):
+        return f"(fun A (_ : A) t => t_reshape {zl(op['shape'])} t)"
+    if k == "permute":
+        return f"(fun A (d : A) t => t_permute d {zl(op['perm'])} t)"
+    if k == "transpose":
+        return f"(fun A (d : A) t => t_permute d (swap_perm (zlen (shape t)) ({op['a']}) ({op['b']})) t)"
+    if k == "slice0":
+        return f"(fun A (_ : A) t => Ok (t_slice0 t (Some ({op['start']})) (Some ({op['stop']}))))"
+    if k == "select0":
+        return f"(t_select0 ({op['i']}))"
+    if k == "unsqueeze0":
+        return "t_unsqueeze0"
+    if k == "expand":
+        return f"(t_expand {zl(op['shape'])})"
+    raise ValueError(k)
+
+
+def mover_correspondence(ck, tier):
+    """stage B: the movers of the Coq vocabulary (reshape / permute / slice / select / unsqueeze / expand and their
+    compositions) against torch on integer payloads, and the same programs on a real per-tensor QBytesTensor"""
+    from common import parse_nat_list
+
+    rng = ck.rng
+    n = 240 if tier == "quick" else 3000
+    cases = [gen_mover_program(rng) for _ in range(n)]
+    res = ck.impl("movers", {"cases": cases}, timeout=1200)
+    if isinstance(res, dict):
+        ck.violation("mover worker crashed: " + res.get("stderr", "")[-300:], {"stderr": res.get("stderr")})
+        return
+    rows = []
+    for c, r in zip(cases, res):
+        for op in c["ops"]:
+            ck.count("mover", op["op"])
+        ck.count("mover outcome", "err" if r["plain"] == "err" else "ok")
+        nel = 1
+        for d in c["shape"]:
+            nel *= d
+        data = [(i % 251) - 125 for i in range(nel)]
+        # audit: the quantized tensor's payload after the program is the program applied to the payload
+        if isinstance(r["quant"], dict) and r["plain"] != "err":
+            if r["quant"]["shape"] != r["plain"]["shape"] or r["quant"]["data"] != r["plain"]["data"] or r["quant"]["size"] != r["plain"]["shape"]:
+                ck.violation("a program of data-movement ops on a per-tensor quantized tensor does not hold the moved payload (or reports another size): " + json.dumps(c["ops"])[:160],
+                             {"case": c, "plain": r["plain"], "quantized": r["quant"]})
+        elif (r["quant"] == "err") != (r["plain"] == "err"):
+            ck.violation(f"a program of data-movement ops raises on exactly one of a quantized tensor / its payload ({r.get('quant_exn') or r.get('plain_exn')}): " + json.dumps(c["ops"])[:160], {"case": c, "result": r})
+        zl = lambda xs: "[" + "; ".join(f"({x})" for x in xs) + "]"  # noqa: E731
+        exp = "None" if r["plain"] == "err" else f"(Some (T {zl(r['plain']['shape'])} {zl(r['plain']['data'])}))"
+        rows.append(f"(T {zl(c['shape'])} {zl(data)}, [{'; '.join(coq_mover(op) for op in c['ops'])}], {exp})")
+    imports = ("From Coq Require Import List ZArith Bool.\nFrom QV Require Import Lib.Res Lib.Tensor Lib.ND Lib.QTensor Model.QOps Proofs.QOpsMoves.\nImport ListNotations.\nOpen Scope Z_scope.\n"
+               "Definition swap_perm (n a b : Z) : list Z := let a := if a <? 0 then a + n else a in let b := if b <? 0 then b + n else b in\n"
+               "  map (fun i => if i =? a then b else if i =? b then a else i) (zrange n).\n"
+               "Definition chk (c : tensor Z * list mover * option (tensor Z)) : bool :=\n"
+               "  let '(t, ops, e) := c in match run ops Z 0 t, e with Ok r, Some x => t_eqb r x | Err _, None => true | _, _ => false end.\n")
+    for s0 in range(0, len(rows), 120):
+        part = rows[s0:s0 + 120]
+        body = "Definition cases : list (tensor Z * list mover * option (tensor Z)) := [\n" + ";\n".join(part) + "].\nEval vm_compute in (failing chk cases).\n"
+        ok, out, err = ck.coq_eval(f"movers_{s0}", body, imports)
+        bad = parse_nat_list(out) if ok else None
+        if bad is None:
+            ck.corr_mismatch.append({"file": f"movers_{s0}.v", "error": (err or out).strip()[-300:]})
+        else:
+            ck.corr_checked += len(part)
+            for k in bad:
+                ck.corr_mismatch.append({"file": f"movers_{s0}.v", "case": cases[s0 + k], "torch": res[s0 + k]["plain"]})
+
+
 def run(pid, tier):
     ck = Check(pid, tier)
     ck.coverage["rule"] = (
@@ -216,6 +335,8 @@ def run(pid, tier):
     ck.ensure_static_build()
     errs = gen_ops.generate(REPO, os.path.join(ck.dyn, "GenOps.v"))
     broken = ck.stage_a(errs, ["GenOps.v"], "TieOps.v", f"{pid}.v", tie_text=gen_ops.tie_text())
+    if not any(o[0].startswith("compile:") for o in broken):
+        mover_correspondence(ck, tier)
     rng = ck.rng
     nprog = 400 if tier == "quick" else 6000
     progs = [gen_program(rng, ck.seed * 100000 + i, tier) for i in range(nprog)]
